@@ -842,6 +842,68 @@ pub fn own_put_window_scenario(r: &mut Report, seed: u64) {
     }
 }
 
+/// A long-lived reader: a node that has sent more than 2^16 requests (some 3,500 lookups in a 20-node network;
+/// days of maintenance traffic on an idle node) looks a freshly written key up. Age must not matter.
+pub fn long_lived_reader(r: &mut Report, seed: u64) {
+    r.eval();
+    let mut rng = Rng::new(seed);
+    let w = World::with_cfg(seed, NetCfg { lat_min: MS, lat_max: 20 * MS, random_ties: true }, TraceLevel::Off);
+    let servers = 20;
+    let mut net = build_net(&w, servers, 0, IpPlan::Private, false, &mut rng);
+    let reader = w.spawn(NodeSpec::client(std::net::Ipv4Addr::new(10, 79, 0, 1), &[net.boot])).expect("reader");
+    w.block_on(reader.adht.bootstrapped(), 120 * SEC);
+    let raddr = reader.addr;
+    let sent = std::sync::Arc::new(std::sync::atomic::AtomicU64::new(0));
+    let s2 = sent.clone();
+    w.set_fault(Some(Box::new(move |info: &SendInfo| {
+        if info.from == raddr {
+            s2.fetch_add(1, std::sync::atomic::Ordering::Relaxed);
+        }
+        None
+    })));
+    let want = 66_000 + rng.below(3_000);
+    let mut lookups = 0u64;
+    while sent.load(std::sync::atomic::Ordering::Relaxed) < want && lookups < 20_000 {
+        let a = reader.adht.clone();
+        let t = Id::from(rng.array::<20>());
+        if w.block_on(async move { drop(a.find_node(t).await) }, 60 * SEC).is_none() {
+            break;
+        }
+        lookups += 1;
+    }
+    w.set_fault(None);
+    let n_sent = sent.load(std::sync::atomic::Ordering::Relaxed);
+    let case = json!({"class":"long-lived-reader","seed":seed.to_string(),"servers":servers,"requests_sent_by_the_reader_before": n_sent, "lookups_before": lookups});
+    r.add("long_lived_reader/requests_sent_before_the_read", n_sent);
+    r.count("long_lived_reader_worlds");
+    net.nodes.push(reader);
+    let ri = net.nodes.len() - 1;
+    let kinds = ["immutable", "mutable", "announce_peer", "announce_signed_peer"];
+    if n_sent >= 65_600 {
+        r.nontrivial(mix(seed, n_sent));
+        for kind in 0..4 {
+            let wi = rng.usize(servers);
+            let Ok(wr) = write(&w, &net, wi, kind, &mut rng) else {
+                r.count("puts_not_ok");
+                continue;
+            };
+            match read(&w, &net, ri, &wr) {
+                Ok(true) => r.count(&format!("found/long-lived-reader/{}", kinds[kind])),
+                Ok(false) => r.violation(&format!("read/long-lived-reader/not-found/{}", kinds[kind]), "a value whose put returned Ok was not returned by a later lookup on a node that had sent more than 65536 requests in its lifetime", case.clone(), json!({"kind": kinds[kind]})),
+                Err(e) => r.violation("read/long-lived-reader/did-not-complete", &format!("reader lookup: {e}"), case.clone(), json!({})),
+            }
+        }
+    }
+    if w.stuck() {
+        r.inconclusive("scheduler watchdog fired");
+    }
+    drop(net);
+    w.shutdown();
+    for (thread, loc, msg) in crate::take_panics() {
+        r.violation(&format!("panic/{loc}"), &format!("thread {thread} panicked: {msg}"), case.clone(), json!({}));
+    }
+}
+
 fn gen_params(rng: &mut Rng, quick: bool) -> Params {
     let servers = *rng.pick(&[1usize, 2, 3, 4, 5, 6, 8, 10, 12, 16, 20]);
     let clients = *rng.pick(&[0usize, 0, 1, 2, 5, 10, if quick { 12 } else { 30 }]);
@@ -855,6 +917,10 @@ pub fn run(a: &Args) -> Report {
         let c = &v["case"];
         if c["class"] == "late-joiner" {
             late_joiner_scenario(&mut r, c["seed"].as_str().and_then(|s| s.parse().ok()).unwrap_or(1));
+            return r;
+        }
+        if c["class"] == "long-lived-reader" {
+            long_lived_reader(&mut r, c["seed"].as_str().and_then(|s| s.parse().ok()).unwrap_or(1));
             return r;
         }
         if c["class"] == "shared-key" {
@@ -889,6 +955,11 @@ pub fn run(a: &Args) -> Report {
             let s = mix(a.seed, 0x1a46e + i as u64);
             super::guarded(&mut r, json!({"class":"large-network","seed":s.to_string(),"servers":servers,"pairs":pairs}), |r| large_scenario(r, s, servers, pairs));
         }
+    }
+    // one long-lived reader in the quick tier (on a shard that has no large network), one per shard in the thorough tier
+    if !a.quick() || a.shard == 1 % a.nshards.max(1) {
+        let s = mix(a.seed, 0x10e6 + a.shard);
+        super::guarded(&mut r, json!({"class":"long-lived-reader","seed":s.to_string()}), |r| long_lived_reader(r, s));
     }
     let n = (if a.quick() { 1600 } else { 32000 }) / a.nshards.max(1);
     let mut rng = Rng::new(mix(a.seed, 0xc01 + a.shard));
